@@ -79,6 +79,16 @@ def hilo_task(bits):
                     res.inconc('hilo: counterexample v=%d for %s did not reproduce' % (bad, name))
             else:
                 res.oblig(True if r == 'unsat' else None, 'unknown hilo ' + name)
+                if r == 'unsat' and bits >= 64:
+                    from symx import second
+                    r2 = second.recheck(p.pc_assertions() + [Not(ob).b if isinstance(Not(ob), SymBool) else z3.BoolVal(not ob)])
+                    ss = res.setdefault('second_solver', dict(queries=0, agree=0, disagree=[]))
+                    ss['queries'] += 1
+                    if r2 == 'unsat':
+                        ss['agree'] += 1
+                    else:
+                        ss['disagree'].append('hilo %s: cvc5 %s' % (name, r2))
+                        res.inconc('second solver disagrees on hilo %s: %s' % (name, r2))
     if npaths == 0:
         res['vacuity'].append('hilo: no accepting path')
     res.absorb_stats(x.stats)
